@@ -8,3 +8,4 @@ selftest:
 
 extras:
 	$(CURDIR)/bin/check X01 --tier quick
+	$(CURDIR)/bin/check X02 --tier quick
